@@ -105,7 +105,11 @@ func leanTyX(t gty) string {
 		for _, p := range strings.Split(parts[0], ",") {
 			out = append(out, leanTyX(gty(p)))
 		}
-		out = append(out, leanTyX(gty(parts[1])))
+		if smMode {
+			out = append(out, "Go.SM "+leanTyX(gty(parts[1])))
+		} else {
+			out = append(out, leanTyX(gty(parts[1])))
+		}
 		return "(" + strings.Join(out, " → ") + ")"
 	}
 	return leanTy(t)
@@ -142,22 +146,26 @@ type imp struct {
 	loopN    int
 	tmpN     int
 	fuel     bool
-	sigs     map[string]*isig // translated imp functions
+	sigs     map[string]*isig  // translated imp functions
 	objs     map[string]string // object variables (the receiver, locals made with &T{…}): their struct type
 	breakOK  bool              // inside a loop whose result carries an early return
 	callTmp  map[*ast.CallExpr]string
 	idxTmp   map[ast.Node]string
 	idxTy    map[ast.Node]gty
 	pureSigs map[string][]sfield // pure-mode methods (jsf64ctx.rand): their receiver fields in order
+	sm       bool                // script mode (shrink.go's shrinker): reads of s.rec / s.shrinks and s.accept are effects (Go.SM)
 }
 
 type isig struct {
-	lean    string
-	recvTy  string
-	fields  []sfield
-	params  []gty
-	results []gty
-	fuel    bool
+	sm       bool  // a Go.SM function
+	variadic bool  // the last parameter is variadic
+	argIdx   []int // positions of the translated parameters among the call's arguments (time.Time parameters are dropped)
+	lean     string
+	recvTy   string
+	fields   []sfield
+	params   []gty
+	results  []gty
+	fuel     bool
 }
 
 // which struct declares method m for receiver type ty (embedded structs are searched)
@@ -264,6 +272,15 @@ func partial(e ast.Node) bool {
 			if isLEUint64(x) {
 				found = true
 			}
+			if smPartial != nil && smPartial(x) {
+				found = true
+			}
+		case *ast.SelectorExpr:
+			if smPartial != nil && smPartial(x) {
+				found = true
+			}
+		case *ast.FuncLit:
+			return false
 		}
 		return !found
 	})
@@ -310,7 +327,7 @@ func (m *imp) hoistIdx(e ast.Expr) []string {
 				panic("translate: index is not an int")
 			}
 			tmp := m.fresh("e")
-			pre = append(pre, fmt.Sprintf("(Go.idx %s %s) >>= fun %s =>", xs, i, tmp))
+			pre = append(pre, fmt.Sprintf("%s >>= fun %s =>", m.lift(fmt.Sprintf("(Go.idx %s %s)", xs, i)), tmp))
 			m.idxTmp[x] = tmp
 			m.idxTy[x] = gty(string(xty)[2:])
 			m.t.env[tmp] = m.idxTy[x]
@@ -323,7 +340,7 @@ func (m *imp) hoistIdx(e ast.Expr) []string {
 			if x.High != nil {
 				walk(x.High)
 			}
-			if x.Max != nil || (x.Low != nil && x.High != nil) {
+			if x.Max != nil {
 				panic("translate: unsupported slice expression")
 			}
 			if x.Low == nil && x.High == nil {
@@ -331,12 +348,21 @@ func (m *imp) hoistIdx(e ast.Expr) []string {
 			}
 			xs, xty := m.expr(x.X, "")
 			tmp := m.fresh("s")
+			if x.Low != nil && x.High != nil {
+				i, _ := m.expr(x.Low, "i64")
+				j, _ := m.expr(x.High, "i64")
+				pre = append(pre, fmt.Sprintf("%s >>= fun %s =>", m.lift(fmt.Sprintf("(Go.slice %s %s %s)", xs, i, j)), tmp))
+				m.idxTmp[x] = tmp
+				m.idxTy[x] = xty
+				m.t.env[tmp] = xty
+				return
+			}
 			if x.High != nil {
 				j, _ := m.expr(x.High, "i64")
-				pre = append(pre, fmt.Sprintf("(Go.sliceTo %s %s) >>= fun %s =>", xs, j, tmp))
+				pre = append(pre, fmt.Sprintf("%s >>= fun %s =>", m.lift(fmt.Sprintf("(Go.sliceTo %s %s)", xs, j)), tmp))
 			} else if x.Low != nil {
 				i, _ := m.expr(x.Low, "i64")
-				pre = append(pre, fmt.Sprintf("(Go.sliceFrom %s %s) >>= fun %s =>", xs, i, tmp))
+				pre = append(pre, fmt.Sprintf("%s >>= fun %s =>", m.lift(fmt.Sprintf("(Go.sliceFrom %s %s)", xs, i)), tmp))
 			} else {
 				panic("translate: x[:]")
 			}
@@ -345,11 +371,25 @@ func (m *imp) hoistIdx(e ast.Expr) []string {
 			m.t.env[tmp] = xty
 			return
 		}
+		if _, ok := n.(*ast.FuncLit); ok {
+			return
+		}
+		if c, ok := n.(*ast.CallExpr); ok && m.sm {
+			if _, bound := m.callTmp[c]; bound {
+				return // a method call that was bound to a name before (with its arguments)
+			}
+		}
+		if m.sm {
+			if more, done := m.smHoist(n, walk); done {
+				pre = append(pre, more...)
+				return
+			}
+		}
 		if call, ok := n.(*ast.CallExpr); ok && isLEUint64(call) {
 			walk(call.Args[0])
 			a, _ := m.expr(call.Args[0], "[]u8")
 			tmp := m.fresh("e")
-			pre = append(pre, fmt.Sprintf("(Go.leU64 %s) >>= fun %s =>", a, tmp))
+			pre = append(pre, fmt.Sprintf("%s >>= fun %s =>", m.lift(fmt.Sprintf("(Go.leU64 %s)", a)), tmp))
 			m.idxTmp[call] = tmp
 			m.idxTy[call] = "u64"
 			m.t.env[tmp] = "u64"
@@ -425,6 +465,9 @@ func (m *imp) expr(e ast.Expr, want gty) (string, gty) {
 			return x.Value, "str"
 		}
 	case *ast.SelectorExpr:
+		if tmp, ok := m.idxTmp[x]; ok {
+			return tmp, m.idxTy[x]
+		}
 		if id, ok := x.X.(*ast.Ident); ok && id.Name == m.recv {
 			for _, f := range m.fields {
 				if f.name == x.Sel.Name {
@@ -470,12 +513,15 @@ func (m *imp) expr(e ast.Expr, want gty) (string, gty) {
 		if tmp, ok := m.idxTmp[x]; ok {
 			return tmp, m.idxTy[x]
 		}
+		if m.sm && exprText(m.p.fset, x) == "time.Now().Before(deadline)" {
+			return "true", "bool" // the deadline never expires here: running out of fuel is the cut
+		}
 		// []T(nil): the empty slice
 		if at, ok := x.Fun.(*ast.ArrayType); ok && at.Len == nil && len(x.Args) == 1 && exprText(m.p.fset, x.Args[0]) == "nil" {
 			return "[]", goTyX(at)
 		}
 		// a call of a function value (a parameter or a field of function type): pure
-		if fs, fty := m.funcValue(x.Fun); fs != "" {
+		if fs, fty := m.funcValue(x.Fun); fs != "" && !m.sm {
 			parts := strings.SplitN(string(fty)[5:], "->", 2)
 			ptys := strings.Split(parts[0], ",")
 			args := []string{fs}
@@ -510,6 +556,15 @@ func (m *imp) expr(e ast.Expr, want gty) (string, gty) {
 			return "(bitmask64 " + a + ")", "u64"
 		}
 	case *ast.CompositeLit:
+		if at, ok := x.Type.(*ast.ArrayType); ok && at.Len == nil {
+			ty := goTyX(at)
+			var elems []string
+			for _, el := range x.Elts {
+				e, _ := m.expr(el, gty(string(ty)[2:]))
+				elems = append(elems, e)
+			}
+			return "[" + strings.Join(elems, ", ") + "]", ty
+		}
 		if id, ok := x.Type.(*ast.Ident); ok && knownStructs[id.Name] != nil {
 			given := map[string]string{}
 			for _, el := range x.Elts {
@@ -683,7 +738,7 @@ func (m *imp) appendExpr(c *ast.CallExpr) (string, gty) {
 
 // cond: a condition as a term of type `Go.M Bool` (or a pure Bool when nothing in it can panic)
 func (m *imp) cond(e ast.Expr) (code string, pure bool) {
-	if !partial(e) {
+	if !m.partialX(e) {
 		s, _ := m.expr(e, "bool")
 		return s, true
 	}
@@ -700,6 +755,9 @@ func (m *imp) cond(e ast.Expr) (code string, pure bool) {
 			r = "(pure " + r + ")"
 		}
 		fn := map[token.Token]string{token.LAND: "Go.andThen", token.LOR: "Go.orElse"}[b.Op]
+		if m.sm {
+			fn = map[token.Token]string{token.LAND: "Go.SM.andThen", token.LOR: "Go.SM.orElse"}[b.Op]
+		}
 		return "(" + fn + " " + l + " " + r + ")", false
 	}
 	pre := m.hoistIdx(e)
@@ -710,12 +768,13 @@ func (m *imp) cond(e ast.Expr) (code string, pure bool) {
 // ---- statements
 
 type ictx struct {
-	tail   func() string            // what follows the last statement of the list
-	brk    func() string            // `break` (inside a loop)
+	tail   func() string             // what follows the last statement of the list
+	cont   func() string             // `continue` (inside a loop)
+	brk    func() string             // `break` (inside a loop)
 	retRaw func(tuple string) string // how a return of the function's result tuple leaves (inside a loop: through its result)
 }
 
-func (c ictx) withTail(tail func() string) ictx { return ictx{tail, c.brk, c.retRaw} }
+func (c ictx) withTail(tail func() string) ictx { return ictx{tail, c.cont, c.brk, c.retRaw} }
 
 func (m *imp) ret(c ictx, vals []string) string {
 	all := append(append([]string{}, vals...), m.stateNames()...)
@@ -727,6 +786,9 @@ func (m *imp) ret(c ictx, vals []string) string {
 
 // variables (locals of the enclosing scope and state fields) that the statements assign
 func (m *imp) assigned(list []ast.Stmt) []string {
+	if m.sm {
+		return m.assignedScoped(list)
+	}
 	seen := map[string]bool{}
 	var note func(e ast.Expr)
 	note = func(e ast.Expr) {
@@ -826,7 +888,7 @@ func returns(list []ast.Stmt) bool {
 	case *ast.ReturnStmt:
 		return true
 	case *ast.BranchStmt:
-		return s.Tok == token.BREAK
+		return s.Tok == token.BREAK || s.Tok == token.CONTINUE
 	case *ast.ExprStmt:
 		if c, ok := s.X.(*ast.CallExpr); ok {
 			if id, ok := c.Fun.(*ast.Ident); ok && id.Name == "panic" {
@@ -858,8 +920,10 @@ func escapes(list []ast.Stmt) bool {
 			switch y := x.(type) {
 			case *ast.ReturnStmt:
 				found = true
+			case *ast.FuncLit:
+				return false
 			case *ast.BranchStmt:
-				if y.Tok == token.BREAK && !inLoop {
+				if (y.Tok == token.BREAK || y.Tok == token.CONTINUE) && !inLoop {
 					found = true
 				}
 			case *ast.ForStmt:
@@ -916,6 +980,9 @@ func (m *imp) block(list []ast.Stmt, c ictx) string {
 	case *ast.ReturnStmt:
 		var pre []string
 		for _, r := range s.Results {
+			if m.sm {
+				pre = append(pre, m.hoistCalls(r)...)
+			}
 			pre = append(pre, m.hoistIdx(r)...)
 		}
 		var vals []string
@@ -978,18 +1045,28 @@ func (m *imp) block(list []ast.Stmt, c ictx) string {
 		case "assert", "assertf":
 			cd, pure := m.cond(call.Args[0])
 			if pure {
-				return fmt.Sprintf("Go.assert %s >>= fun _ =>\n  %s", cd, rest())
+				return fmt.Sprintf("%s >>= fun _ =>\n  %s", m.lift("(Go.assert "+cd+")"), rest())
 			}
 			cv := m.fresh("c")
-			return fmt.Sprintf("%s >>= fun %s => Go.assert %s >>= fun _ =>\n  %s", cd, cv, cv, rest())
+			return fmt.Sprintf("%s >>= fun %s => %s >>= fun _ =>\n  %s", cd, cv, m.lift("(Go.assert "+cv+")"), rest())
 		case "panic":
 			if inner, ok := call.Args[0].(*ast.CallExpr); ok && exprText(m.p.fset, inner.Fun) == "invalidData" {
+				if m.sm {
+					return m.lift("(.error (.invalidData " + exprText(m.p.fset, inner.Args[0]) + "))")
+				}
 				return ".error (.invalidData " + exprText(m.p.fset, inner.Args[0]) + ")"
 			}
 			panic("translate(imp): unsupported panic value")
 		}
+		if m.sm && fn == m.recv+".debugf" {
+			return rest() // logging only
+		}
 		if code, names, ok := m.methodCall(call, nil); ok {
 			return m.bindTuple(names, code, rest())
+		}
+		if id, ok := call.Fun.(*ast.Ident); ok && m.sigs[id.Name] != nil {
+			pre := m.hoistIdx(call)
+			return withPre(pre, rest())
 		}
 	case *ast.IfStmt:
 		if s.Init != nil {
@@ -1055,6 +1132,9 @@ func (m *imp) block(list []ast.Stmt, c ictx) string {
 	case *ast.BranchStmt:
 		if s.Tok == token.BREAK && c.brk != nil {
 			return c.brk()
+		}
+		if s.Tok == token.CONTINUE && c.cont != nil {
+			return c.cont()
 		}
 	case *ast.ForStmt:
 		return m.loop(s, nil, rest, c)
@@ -1127,6 +1207,11 @@ func (m *imp) assign(lhs ast.Expr, rhs ast.Expr, tok token.Token, rest func() st
 		}
 		e, ty := m.expr(rhs, m.t.env[x.Name])
 		if ty == "" {
+			if _, isConst := m.t.constVal(rhs); isConst && tok == token.DEFINE {
+				e, ty = m.expr(rhs, "i64") // an untyped integer constant defaults to int
+			}
+		}
+		if ty == "" {
 			panic("translate: cannot type " + exprText(m.p.fset, rhs))
 		}
 		if old, ok := m.t.env[x.Name]; ok && tok != token.DEFINE && old != ty {
@@ -1196,7 +1281,7 @@ func (m *imp) assignElem(ix *ast.IndexExpr, field string, rhs ast.Expr, rest fun
 	if target == "" {
 		panic("translate(imp): element assignment to " + exprText(m.p.fset, ix.X))
 	}
-	s := fmt.Sprintf("(Go.setIdx %s %s %s) >>= fun %s =>\n  %s", xs, i, upd, target, rest())
+	s := fmt.Sprintf("%s >>= fun %s =>\n  %s", m.lift(fmt.Sprintf("(Go.setIdx %s %s %s)", xs, i, upd)), target, rest())
 	if len(pre) > 0 {
 		s = strings.Join(pre, "\n  ") + "\n  " + s
 	}
@@ -1220,6 +1305,9 @@ func (m *imp) methodCall(call *ast.CallExpr, resultNames []string) (string, []st
 		}
 		return "", nil, false
 	}
+	if m.sm && id.Name == m.recv && m.recvTy == "shrinker" && sel.Sel.Name == "accept" {
+		return m.smAccept(call, resultNames)
+	}
 	objTy := m.recvTy
 	fieldVar := m.fieldVar
 	if id.Name != m.recv {
@@ -1237,7 +1325,11 @@ func (m *imp) methodCall(call *ast.CallExpr, resultNames []string) (string, []st
 		args = append(args, fieldVar(f.name))
 	}
 	var pre []string
-	for i, a := range call.Args {
+	for i := range sg.params {
+		a := call.Args[i]
+		if sg.argIdx != nil {
+			a = call.Args[sg.argIdx[i]]
+		}
 		pre = append(pre, m.hoistIdx(a)...)
 		s, ty := m.expr(a, sg.params[i])
 		if ty != sg.params[i] {
@@ -1268,6 +1360,9 @@ func (m *imp) methodCall(call *ast.CallExpr, resultNames []string) (string, []st
 		}
 	}
 	code := "(" + sg.lean + " " + strings.Join(args, " ") + ")"
+	if m.sm && !sg.sm {
+		code = m.lift(code)
+	}
 	if len(pre) > 0 {
 		code = "(" + strings.Join(pre, " ") + " " + code + ")"
 	}
@@ -1322,7 +1417,10 @@ func (m *imp) loop(f *ast.ForStmt, r *ast.RangeStmt, rest func() string, outer i
 	loopLocal := map[string]bool{}
 	saved := m.t.snapshot()
 	if f != nil {
-		if f.Init != nil {
+		if inc, ok := f.Init.(*ast.IncDecStmt); ok {
+			// `for j--; …`: the init statement works on a variable of the enclosing scope
+			pre = m.block([]ast.Stmt{inc}, ictx{tail: func() string { return "" }})
+		} else if f.Init != nil {
 			as, ok := f.Init.(*ast.AssignStmt)
 			if !ok || len(as.Lhs) != 1 {
 				panic("translate(imp): loop init")
@@ -1464,6 +1562,9 @@ func (m *imp) loop(f *ast.ForStmt, r *ast.RangeStmt, rest func() string, outer i
 	hasReturn := false
 	for _, st := range body {
 		ast.Inspect(st, func(n ast.Node) bool {
+			if _, ok := n.(*ast.FuncLit); ok {
+				return false
+			}
 			if _, ok := n.(*ast.ReturnStmt); ok {
 				hasReturn = true
 			}
@@ -1502,7 +1603,7 @@ func (m *imp) loop(f *ast.ForStmt, r *ast.RangeStmt, rest func() string, outer i
 		}
 		return s
 	}
-	bctx := ictx{tail: tail, brk: func() string { return exit }}
+	bctx := ictx{tail: tail, cont: tail, brk: func() string { return exit }}
 	if hasReturn {
 		bctx.retRaw = func(tuple string) string { return "pure (" + tupleOf(mut) + ", some " + tuple + ")" }
 	}
@@ -1510,7 +1611,7 @@ func (m *imp) loop(f *ast.ForStmt, r *ast.RangeStmt, rest func() string, outer i
 	if valueVar != "" {
 		xs, xty := m.expr(rangeX, "")
 		m.t.env[valueVar] = gty(string(xty)[2:])
-		bodyS = fmt.Sprintf("(Go.idx %s %s) >>= fun %s =>\n  %s", xs, hidden, valueVar, m.block(body, bctx))
+		bodyS = fmt.Sprintf("%s >>= fun %s =>\n  %s", m.lift(fmt.Sprintf("(Go.idx %s %s)", xs, hidden)), valueVar, m.block(body, bctx))
 	} else {
 		bodyS = m.block(body, bctx)
 	}
@@ -1529,13 +1630,13 @@ func (m *imp) loop(f *ast.ForStmt, r *ast.RangeStmt, rest func() string, outer i
 	if hasReturn {
 		resTy = "(" + resTy + ") × Option (" + tupleTyX(retTys) + ")"
 	}
-	m.aux = append(m.aux, fmt.Sprintf("/-- loop #%d of %s (%s); `fuel` bounds the number of iterations -/\ndef %s %s : Nat → %s → Go.M (%s)\n  | 0%s => .error .fuel\n  | fuel+1, %s =>\n    %s\n",
+	m.aux = append(m.aux, fmt.Sprintf("/-- loop #%d of %s (%s); `fuel` bounds the number of iterations -/\ndef %s %s : Nat → %s → %s (%s)\n  | 0%s => %s\n  | fuel+1, %s =>\n    %s\n",
 		m.loopN, m.key, m.p.fset.Position(func() token.Pos {
 			if f != nil {
 				return f.Pos()
 			}
 			return r.Pos()
-		}()), name, strings.Join(params, " "), strings.Join(mtys, " → "), resTy, under, pats, stepS))
+		}()), name, strings.Join(params, " "), strings.Join(mtys, " → "), m.mon(), resTy, under, m.fuelOut(), pats, stepS))
 	mutTy := map[string]gty{}
 	for _, v := range mut {
 		mutTy[v] = m.varTy(v)
@@ -1576,19 +1677,33 @@ func (m *imp) loop(f *ast.ForStmt, r *ast.RangeStmt, rest func() string, outer i
 
 // impFunction translates a method (or function) in the imperative subset
 func (t *trans) impFunction(key string, sigs map[string]*isig) string {
+	return t.impFunctionMode(key, sigs, false, "")
+}
+
+// sm: script mode (Go.SM); suffix: appended to the Lean name (the script-mode copies of `minimize` and the minimizer)
+func (t *trans) impFunctionMode(key string, sigs map[string]*isig, sm bool, suffix string) string {
 	d, ok := t.p.funcs[key]
 	if !ok {
 		panic("translate: no function " + key)
 	}
 	fxMode = false
-	m := &imp{t: t, p: t.p, key: key, sigs: sigs, objs: map[string]string{}, callTmp: map[*ast.CallExpr]string{}, idxTmp: map[ast.Node]string{}, idxTy: map[ast.Node]gty{}, pureSigs: t.pureMethodFields}
+	smMode = sm
+	defer func() { smMode = false; smPartial = nil }()
+	m := &imp{t: t, p: t.p, key: key + suffix, sigs: sigs, objs: map[string]string{}, callTmp: map[*ast.CallExpr]string{}, idxTmp: map[ast.Node]string{}, idxTy: map[ast.Node]gty{}, pureSigs: t.pureMethodFields, sm: sm}
+	if sm {
+		smPartial = m.smEffect
+	}
 	t.env = map[string]gty{}
 	t.fields = map[string]gty{}
 	t.recv = ""
 	t.hoisted = map[*ast.CallExpr]string{}
 	var params []string
-	sg := &isig{lean: strings.ReplaceAll(key, ".", "_")}
-	if d.Recv != nil {
+	sg := &isig{lean: strings.ReplaceAll(key, ".", "_") + suffix, sm: sm}
+	if d.Recv != nil && sm && recvType(d) == "shrinker" {
+		// the shrinker's state is reached through effects (Go.SM.data / groups / shrinks / accept), not parameters
+		m.recv, m.recvTy = recvName(d), recvType(d)
+		sg.recvTy = m.recvTy
+	} else if d.Recv != nil {
 		m.recv, m.recvTy = recvName(d), recvType(d)
 		used := t.p.methodFields(key, map[string]bool{})
 		for _, f := range structFields(m.recvTy) {
@@ -1608,13 +1723,28 @@ func (t *trans) impFunction(key string, sigs map[string]*isig) string {
 		}
 		sg.recvTy, sg.fields = m.recvTy, m.fields
 	}
+	argPos := 0
+	dropped := false
 	for _, f := range d.Type.Params.List {
 		for _, n := range f.Names {
+			if sm && exprText(t.p.fset, f.Type) == "time.Time" {
+				dropped = true // the deadline: it never expires here
+				argPos++
+				continue
+			}
 			ty := goTyX(f.Type)
+			if _, ok := f.Type.(*ast.Ellipsis); ok {
+				sg.variadic = true
+			}
 			t.env[n.Name] = ty
 			params = append(params, fmt.Sprintf("(%s : %s)", n.Name, leanTyX(ty)))
 			sg.params = append(sg.params, ty)
+			sg.argIdx = append(sg.argIdx, argPos)
+			argPos++
 		}
+	}
+	if !dropped {
+		sg.argIdx = nil
 	}
 	if d.Type.Results != nil {
 		for _, f := range d.Type.Results.List {
@@ -1628,7 +1758,22 @@ func (t *trans) impFunction(key string, sigs map[string]*isig) string {
 		}
 	}
 	m.results = sg.results
-	body := m.block(d.Body.List, ictx{tail: func() string { return m.ret(ictx{}, nil) }})
+	stmts := d.Body.List
+	if sm && key == "shrinker.shrink" {
+		// only the round loop: the deferred recover is `Script.run`'s `Stop`, what follows the loop is logging
+		stmts = nil
+		for _, st := range d.Body.List {
+			if as, ok := st.(*ast.AssignStmt); ok && as.Tok == token.DEFINE {
+				stmts = append(stmts, st)
+			}
+			if _, ok := st.(*ast.ForStmt); ok {
+				stmts = append(stmts, st)
+				break
+			}
+		}
+		sg.results, m.results = nil, nil
+	}
+	body := m.block(stmts, ictx{tail: func() string { return m.ret(ictx{}, nil) }})
 	sg.fuel = m.fuel
 	sigs[key] = sg
 	var resTys []gty
@@ -1645,8 +1790,8 @@ func (t *trans) impFunction(key string, sigs map[string]*isig) string {
 	if out != "" {
 		out += "\n"
 	}
-	out += fmt.Sprintf("/-- %s (%s): %s -/\ndef %s %s : Go.M (%s) :=\n  %s\n", key, t.p.fset.Position(d.Pos()),
-		impDoc(sg, m), sg.lean, strings.Join(params, " "), tupleTyX(resTys), body)
+	out += fmt.Sprintf("/-- %s (%s): %s -/\ndef %s %s : %s (%s) :=\n  %s\n", key, t.p.fset.Position(d.Pos()),
+		impDoc(sg, m), sg.lean, strings.Join(params, " "), m.mon(), tupleTyX(resTys), body)
 	return out
 }
 
